@@ -482,7 +482,7 @@ def run(world, rep, tier, only=None):
             fl = arg(n, 1) if is_call(n, "ext2fs_open") else arg(n, 2)
             c = T.const(fl)
             return c is not None and (c & 1) == 0
-        return False
+        return effects.nondevice_call(f, n)
     may_req = mk.may(lambda f, n: effects.is_write_req(f, n), stop=lambda f: f.name in STOP, skip_call=ro_open)
     # nodes reachable from entry when every `noaction` literal takes its true arm, up to exit()
     def noact(nn, si, m):
